@@ -12,7 +12,7 @@ ORACLE_RULE = ("C04: indicator kind (rotating over " + ", ".join(od.KINDS[ID]) +
 ASSUMPTIONS = ["helper indicator series may be rounded to 4 decimals (they do not inherit round_value); the budget allows max(0.5e-4, 0.5*10^-round_value) per helper series",
                "float noise allowance 1e-10 relative to the input scale on top of the rounding budget",
                "points where the textbook formula is 0/0 (flat high-low window, zero traded volume, zero smoothed |momentum|, zero ATR) are not constrained here (C09 covers them)"]
-PARTIAL = "exact ordered field with abstract rounding (IEEE effects outside). Proved: every single call of SMA/EMA/RMA/WMA/VWMA/HMA incl. position independence; the WHOLE SERIES of all six on every raw stream with a candle-field input - through the engine, the batch run and every append schedule - with true warm-up indices and explicit budgets (HMA: first reading at (p-1)+(isqrt p - 1), within eps_n + 4 eps_4, not growing). Indicator-valued / late-starting inputs: C04_FULL as first written is refuted (C04_FULL_false: a bool column among the first t0 inputs counts as a reading) and, with the input None on the first t0 candles, PROVED over every candle list holding foreign readings for SMA, EMA, RMA, WMA (and VWMA on any candle list): C04_FULL_partial_holds, C04_EMA_/RMA_/WMA_inputs_holds. HMA likewise (C04_HMA_inputs_holds). Open: collapsing timeframe at the numeric level over such inputs"
+PARTIAL = "exact ordered field with abstract rounding (IEEE effects outside). Proved: every single call of SMA/EMA/RMA/WMA/VWMA/HMA incl. position independence; the WHOLE SERIES of all six on every raw stream with a candle-field input - through the engine, the batch run and every append schedule - with true warm-up indices and explicit budgets (HMA: first reading at (p-1)+(isqrt p - 1), within eps_n + 4 eps_4, not growing). Indicator-valued / late-starting inputs: C04_FULL as first written is refuted (C04_FULL_false: a bool column among the first t0 inputs counts as a reading) and, with the input None on the first t0 candles, PROVED over every candle list holding foreign readings for SMA, EMA, RMA, WMA (and VWMA on any candle list): C04_FULL_partial_holds, C04_EMA_/RMA_/WMA_inputs_holds. HMA likewise (C04_HMA_inputs_holds). Round 7: the whole-series statements of all six on EVERY manager (collapsing timeframe, gap filling, Heikin-Ashi: x_series_on_manager / _on_tf / _on_fillHA - the textbook series over the collapsed, filled, converted candles). Open: such managers combined with indicator-valued inputs"
 _case = od.make_case(ID)
 
 
